@@ -1,6 +1,6 @@
 """C20 -- address map holds a name exactly until its latest mapping expires.
 
-Real code: txtorcon.addrmap.Addr.update/_expire, AddrMap.update/find/notify,
+Real code: txtorcon.addrmap.Addr.update/_expire, AddrMap.update/find/notify, TorState._bootstrap (address-mappings/all) and _addr_map (ADDRMAP events),
 scheduled on a real twisted.internet.task.Clock.  Symbolic: the expiry offset
 of every ADDRMAP line and every clock advance (ints; the solver picks the
 boundary values such as 86400).  Reference: name -> (address, absolute expiry).
@@ -15,6 +15,8 @@ from twisted.internet import task  # noqa: E402
 from zope.interface import implementer  # noqa: E402
 import txtorcon.addrmap as addrmap  # noqa: E402
 from txtorcon.interface import IAddrListener  # noqa: E402
+from txtorcon.torstate import TorState  # noqa: E402
+from vlib import fakes  # noqa: E402
 
 PROPERTY = 'C20'
 NAMES = ['a.example.com', 'b.example.com']
@@ -31,7 +33,7 @@ ASSUMPTIONS = [
     'symbolic runs use an integer-time subclass of task.Clock/DelayedCall (same code, int 0 instead of float 0.0); native replays use the stock task.Clock',
 ]
 BOUNDS = {
-    'quick': {'names': 2, 'steps': '2 (all kinds) and 3 (timed line, any line, clock advance)', 'expiry_offset_s': [-10, MAX_OFF], 'advance_s': [0, MAX_ADV], 'line_forms': 5},
+    'quick': {'names': 2, 'steps': '2 (all kinds) and 3 (timed line, any line, clock advance); 3 through a real TorState (0-2 mappings listed at bootstrap, then events, then a clock advance)', 'expiry_offset_s': [-10, MAX_OFF], 'advance_s': [0, MAX_ADV], 'line_forms': 5},
     'thorough': {'names': 2, 'steps': 3, 'expiry_offset_s': [-10, MAX_OFF], 'advance_s': [0, MAX_ADV], 'line_forms': 5},
 }
 OUTSIDE = ['non-UTC local time', 'sub-second expiries', 'more than 3 steps / 2 names', 'expiry offsets beyond 3 days']
@@ -71,11 +73,54 @@ def _line(kind, name, ip, tok_local, tok_utc):
     raise AssertionError(kind)
 
 
-def _history(k, kinds, names, vals):
+def _bootstrap_state(state, p, t, lines):
+    """run the real TorState._bootstrap(); the harness plays Tor and lists `lines` under address-mappings/all
+    (single-line reply for one mapping, data block for several, as Tor renders GETINFO values)"""
+    done = fakes.Outcome(state.post_bootstrap)
+    state._bootstrap()
+    answered = 0
+    for _ in range(40):
+        sent = b''.join(t.chunks).split(b'\r\n')[:-1]
+        if answered >= len(sent):
+            break
+        cmd = sent[answered].decode('ascii')
+        answered += 1
+        if cmd == 'GETINFO ns/all':
+            rep = ['250+ns/all=', '.', '250 OK']
+        elif cmd == 'GETINFO address-mappings/all':
+            if len(lines) == 0:
+                rep = ['250-address-mappings/all=', '250 OK']
+            elif len(lines) == 1:
+                rep = ['250-address-mappings/all=' + lines[0], '250 OK']
+            else:
+                rep = ['250+address-mappings/all='] + list(lines) + ['.', '250 OK']
+        elif cmd == 'GETINFO process/pid':
+            rep = ['250-process/pid=4242', '250 OK']
+        elif cmd.startswith('GETINFO '):
+            rep = ['250-' + cmd[8:] + '=', '250 OK']
+        else:
+            rep = ['250 OK']
+        for ln in rep:
+            p.lineReceived(ln.encode('ascii'))
+    return done
+
+
+def _history(k, kinds, names, vals, via=0, nboot=0):
+    """via 0: lines go straight to AddrMap.update; via 1: the map belongs to a real TorState, the first `nboot` mappings are listed by
+    GETINFO address-mappings/all during the real _bootstrap(), later ones arrive as 650 ADDRMAP events through the real protocol"""
     sym = _mode[0] == 'symbolic'
     clock = shims.make_int_clock() if sym else task.Clock()
-    am = addrmap.AddrMap()
+    if via == 0:
+        am = addrmap.AddrMap()
+        state = p = t = None
+    else:
+        with api.no_tracing():
+            p, t = fakes.new_protocol()
+            p._set_valid_events('STREAM CIRC NEWCONSENSUS ADDRMAP HS_DESC')
+            state = TorState(p, bootstrap=False)
+        am = state.addrmap
     am.scheduler = clock
+    boot_lines = []
     rec = Rec()
     am.add_listener(rec)
     now = [0]
@@ -127,7 +172,20 @@ def _history(k, kinds, names, vals):
             line = _line(kind, name, ip, token(i, 'L', exp + 5 * 3600), token(i, 'U', exp))
             was_alive = name in model
             try:
-                am.update(line)
+                if via == 0:
+                    am.update(line)
+                elif i < nboot:
+                    boot_lines.append(line)
+                    if i == nboot - 1:
+                        done = _bootstrap_state(state, p, t, boot_lines)
+                        if done.ok != 1:
+                            return 'state-bootstrap-failed: %r' % (done.exc(),)
+                else:
+                    if i == 0 and nboot == 0:
+                        done = _bootstrap_state(state, p, t, [])
+                        if done.ok != 1:
+                            return 'state-bootstrap-failed: %r' % (done.exc(),)
+                    p.lineReceived(('650 ADDRMAP ' + line).encode('ascii'))
                 clock.advance(0)
             except Exception as e:
                 return 'exception-in-update: step %d kind %d: %s: %s' % (i, kind, type(e).__name__, e)
@@ -143,7 +201,9 @@ def _history(k, kinds, names, vals):
                     want_added[name] += 1
                 model[name] = [ip, None if kind in (3, 4) else exp]
             prune()
-        # ---- monitors, after every step
+        # ---- monitors, after every step (mappings listed at bootstrap exist only once the bootstrap has run)
+        if via == 1 and i < nboot - 1:
+            continue
         for n in NAMES:
             alive = n in model
             try:
@@ -207,3 +267,17 @@ def c20_history3(k1: int, k2: int, k3: int, n1: int, n2: int, n3: int, v1: int, 
     """3-step histories"""
     assume(0 <= n1 <= 1 and 0 <= n2 <= 1 and 0 <= n3 <= 1)
     return _history(3, [k1, k2, k3], [n1, n2, n3], [v1, v2, v3])
+
+
+_KB = [{'nboot': nb, 'k1': a, 'k2': b} for nb in (0, 1, 2) for a in (1, 2, 3, 4) for b in ((1, 2, 3, 4) if nb == 2 else (0, 1, 2, 3, 4, 5))]
+
+
+@cond(quick=dict(parts=_KB, budget=100))
+def c20_via_state(k1: int, k2: int, k3: int, n1: int, n2: int, n3: int, v1: int, v2: int, v3: int, nboot: int) -> str:
+    """the map of a real TorState: the first nboot mappings come from GETINFO address-mappings/all during _bootstrap (one mapping:
+    single-line reply; two: data block), the rest as 650 ADDRMAP events; the third step is a clock advance"""
+    assume(0 <= n1 <= 1 and 0 <= n2 <= 1 and 0 <= n3 <= 1)
+    assume(k3 == 0)
+    if nboot == 2:
+        assume(n1 != n2)        # Tor lists a name once
+    return _history(3, [k1, k2, k3], [n1, n2, n3], [v1, v2, v3], 1, nboot)
